@@ -443,3 +443,10 @@ PRESERVING += [
 BREAKING += [
     ('c02-pack-class-attr-one-class', ['C02'], _CLS_FMT_EDITS + [(A, "class CRTypeInstruction(CompressedInstruction):\n", "class CRTypeInstruction(CompressedInstruction):\n\n    WORD_FORMAT = '<H'\n")]),
 ]
+
+UNDECIDED += [
+    # the item class is looked up reflectively: which class a `lui` line becomes is not understood -> no verdict, no finding
+    ('u-parse-reflective-class', ['C01'], [(A, "        return UTypeInstruction(line, name, rd, imm)", "        return globals()['UTypeInstruction'](line, name, rd, imm)")]),
+    # the packed value is derived from, not equal to, the encoder's result: value ranges are outside the pack rule
+    ('u-pack-masked-word', ['C01'], [(A, "        code = struct.pack(fmt, code)\n        blob = Blob(item.line, code)", "        code = struct.pack(fmt, code & 0xffffffff)\n        blob = Blob(item.line, code)")]),
+]
